@@ -87,7 +87,8 @@ def run(ctx):
              "the extracted Map model and the extracted Spec model; non-trivial = a write/read whose reply is not nil/0/empty/error; "
              "distinct by hash of (sequence, command, reply). Inputs: corpus/C08+C09, random sequences over adversarial pools for "
              "strings, hashes, sets, sorted sets and lists mixed with their EXPIRE/PERSIST/SETEX/TTL commands (both expiry policies, three apply modes), "
-             "exhaustive short sequences over a tiny alphabet per type (with and without expiry commands)",
+             "exhaustive short sequences over a tiny alphabet per type (with and without expiry commands), big collections around RangeDeleteNum "
+             "(built, removed, re-created on mem / pebble / rocksdb), LIMIT probes on the zset range reads; T / E lines = table key counter and engine keys per class",
         histogram=_data.histogram(runs),
         mismatches=len(all_mism),
         samples=samples[:6],
